@@ -29,7 +29,8 @@ OUTSIDE = ['more than three packages; custom load paths (C12 covers the '
            'path logic)']
 
 GL = b'function _update()\n f()\nend\n'
-PRE = b'function f() end\n'
+PRE = (b'function f() end\nfunction _drawx() end\nfunction _update6() '
+       b'end\nlocal function _init() end\n')
 POST = b'g=2'
 
 
@@ -57,13 +58,15 @@ def graph(x, p):
     e_m2 = x.choice('main->p2', [True, False])
     e_12 = x.choice('p1->p2', [True, False])
     e_21 = x.choice('p2->p1', [False, True]) if p.get('cycle') else False
-    ugl = x.choice('use_game_loop', [False, True])
+    ugl_form = x.choice('use_game_loop', ['absent', 'true', 'false'])
+    ugl = ugl_form == 'true'
     gl1 = x.choice('gl1', ['none', 'first', 'middle', 'last'])
     gl2 = x.choice('gl2', ['none', 'last']) if p.get('gl2') else 'none'
     nl1 = x.choice('nl1', [True, False])
     nl2 = x.choice('nl2', [True, False])
     sub = p.get('sub', '')
-    opt = b',{use_game_loop=true}' if ugl else b''
+    opt = {'absent': b'', 'true': b',{use_game_loop=true}',
+           'false': b',{use_game_loop=false}'}[ugl_form]
     main = b''
     if e_m1:
         main += b'require("' + sub.encode() + b'p1"' + opt + b')\n'
